@@ -14,6 +14,7 @@ import random
 from .. import tt
 from ..hostile import adversary
 
+PYTHON_O_STRIDE = {"quick": 4, "thorough": 2}      # every n-th case is repeated in an interpreter started with -O
 RULE = ("(CNF, switches/explicit arguments, randomness): CNFs from tiny (0-5 variables, 0-6 clauses; empty formula, empty and "
         "duplicate clauses, unused variables) to 300 variables / 1000 clauses; all 27 combinations of fixed/shuffle/explicit for "
         "the three arguments; valid explicit arguments as list/tuple/range, invalid ones (wrong length, 0 / +-2 flips, repeated, "
